@@ -7,7 +7,9 @@ S = os.path.join(V, "seeded")
 RES = os.path.join(S, "results.json")
 # checks expected to notice each change besides the property it was written against
 ALSO = {"C01-reply-flags-echo": ["C04"], "C01-vring-addr-layout": ["C02"], "C20-hdr-reserved-bits": ["C05"], "C20-vring-align-swap": ["C05"],
-        "C03-add-mem-reg-early-return-no-nack": ["C04"], "C04-reply-keeps-need-reply": ["C01"], "C05-region-top-inclusive": ["C20"]}
+        "C03-add-mem-reg-early-return-no-nack": ["C04"], "C04-reply-keeps-need-reply": ["C01"], "C05-region-top-inclusive": ["C20"],
+        # round 3: the defect belongs (also) to a sibling property, whose check finds the failing input
+        "R3-C02-unsolicited-nack": ["C04"], "R3-C11-second-worker-event-id": ["C17"], "R3-C11-get-base-unstarted-keeps-call": ["C14"]}
 claimed = {c["property_id"] if "property_id" in c else c.get("id") for c in json.load(open(os.path.join(V, "MANIFEST.json"))).get("checks", [])}
 want = sys.argv[1:]
 res = json.load(open(RES)) if os.path.exists(RES) else {}
